@@ -374,12 +374,14 @@ func (p *Parser) InteractiveSeq(r io.Reader) iter.Seq2[[]*Stmt, error] {
 			return !stopped
 		}
 		w := wrappedReader{p: p, rd: r, yield: yield}
+		failed := false
 		for stmts, err := range p.StmtsSeq(&w) {
 			if stopped {
 				break
 			}
 			w.accumulated = append(w.accumulated, stmts)
 			if err != nil {
+				failed = true
 				if !yield(w.accumulated, err) {
 					break
 				}
@@ -400,6 +402,11 @@ func (p *Parser) InteractiveSeq(r io.Reader) iter.Seq2[[]*Stmt, error] {
 				// another "$ " print thinking that nothing was parsed.
 				w.lastLine = w.p.line + 1
 			}
+		}
+		// The input ended without a final newline; the statements
+		// of its last line are complete too.
+		if !failed && len(w.accumulated) > 0 {
+			yield(w.accumulated, nil)
 		}
 	}
 }
